@@ -32,8 +32,10 @@ variants() {
     C08:thorough|C09:thorough) echo "seq race:conc race:conc:gmp2 conc:gmp4" ;;
     C11:quick)    echo "race aim" ;;      # aim: only the timer-expiry aiming sweep, uninstrumented so that it reaches ~10^6 cycles
     C11:thorough) echo "race aim race:atc0 norace:gmp4 race:gmp2" ;;
-    C17:quick|C20:quick) echo "race" ;;
-    C17:thorough|C20:thorough) echo "race race:atc0 norace:gmp4 race:gmp2" ;;
+    C17:quick)    echo "race sweep" ;;    # sweep: only the concurrent-trigger-callers phase sweep, uninstrumented (~10^6 rounds)
+    C17:thorough) echo "race sweep race:atc0 norace:gmp4 race:gmp2" ;;
+    C20:quick)    echo "race" ;;
+    C20:thorough) echo "race race:atc0 norace:gmp4 race:gmp2" ;;
     C13:quick) echo "race race:gmp3" ;;   # gmp3: GOMAXPROCS below the CPU count (what 'parallelism <= 0' must follow)
     *:quick)       echo "race" ;;
     *:thorough)    echo "race norace race:gmp2 norace:gmp4 race:gmp1" ;;
